@@ -32,8 +32,8 @@ type H struct {
 }
 
 type Pub struct {
-	Mode   string `json:"mode"` // plain (Publish), values, cancelled
-	NVals  int    `json:"nvals,omitempty"`
+	Mode  string `json:"mode"` // plain (Publish), values, cancelled
+	NVals int    `json:"nvals,omitempty"`
 	// Foreign: the publish context is not one of the standard library's
 	// context types but an implementation of its own (own Done channel and
 	// Err, values delegated) - a merged or framework context.
@@ -72,15 +72,15 @@ func (c *foreignCtx) Err() error {
 func (c *foreignCtx) Value(k any) any { return c.vals.Value(k) }
 
 type Case struct {
-	Handlers  []H    `json:"handlers"`
-	Pubs      []Pub  `json:"pubs"`
-	Before    bool   `json:"before,omitempty"`
-	BeforeCtx bool   `json:"before_ctx,omitempty"`
-	After     bool   `json:"after,omitempty"`
-	AfterCtx  bool   `json:"after_ctx,omitempty"`
-	Setters   bool   `json:"setters,omitempty"` // install legacy hooks with the Set* methods
-	Obs       bool   `json:"obs,omitempty"`     // Observability that replaces the context
-	Conc      int    `json:"conc,omitempty"`    // >1: the publishes are issued by this many concurrent goroutines
+	Handlers  []H   `json:"handlers"`
+	Pubs      []Pub `json:"pubs"`
+	Before    bool  `json:"before,omitempty"`
+	BeforeCtx bool  `json:"before_ctx,omitempty"`
+	After     bool  `json:"after,omitempty"`
+	AfterCtx  bool  `json:"after_ctx,omitempty"`
+	Setters   bool  `json:"setters,omitempty"` // install legacy hooks with the Set* methods
+	Obs       bool  `json:"obs,omitempty"`     // Observability that replaces the context
+	Conc      int   `json:"conc,omitempty"`    // >1: the publishes are issued by this many concurrent goroutines
 	// Store: the bus persists to "" nothing, "memory" a memory store,
 	// "honour" a store that refuses calls whose context is done (as SQL and
 	// network stores do), "failing" a store that rejects every second append.
@@ -105,9 +105,9 @@ func (obs) OnPublishComplete(context.Context, string) {}
 func (obs) OnHandlerStart(ctx context.Context, _ string, _ bool) context.Context {
 	return context.WithValue(ctx, vk(98), "obs-h")
 }
-func (obs) OnHandlerComplete(context.Context, time.Duration, error)            {}
+func (obs) OnHandlerComplete(context.Context, time.Duration, error)               {}
 func (obs) OnPersistStart(ctx context.Context, _ string, _ int64) context.Context { return ctx }
-func (obs) OnPersistComplete(context.Context, time.Duration, error)            {}
+func (obs) OnPersistComplete(context.Context, time.Duration, error)               {}
 
 type pubState struct {
 	ctx      context.Context
